@@ -75,6 +75,7 @@ St0 == [nodes |-> <<>>, subj |-> <<>>, subs |-> <<>>, multi |-> <<>>,
         statcells |-> <<>>, futs |-> <<<<>>, <<>>>>, streams |-> <<<<>>, <<>>>>, timerlog |-> <<>>,
         now |-> 0, log |-> <<>>, cnt |-> Cnt0,
         stack |-> <<>>, vs |-> <<>>, ret |-> U, fault |-> "", arc |-> FALSE,
+        cur |-> 1, conc |-> FALSE, overlap |-> FALSE, callno |-> 0, pcre |-> <<>>,    \* pcre: per probe <<thread, call>> that created it       \* running thread; multi-threaded instance; two threads inside one callback
         nprobe |-> 0]
 
 Push(st, frs)     == [st EXCEPT !.stack = frs \o @]
@@ -82,6 +83,10 @@ PushV(st, x)      == [st EXCEPT !.vs = <<x>> \o @]
 TopV(st)          == Head(st.vs)
 PopV(st)          == [st EXCEPT !.vs = Tail(@)]
 Fault(st, what)   == [st EXCEPT !.fault = what, !.stack = <<>>]
+(* a query (is_finished / is_closed / len / peek ...) met a cell that is locked: re-entrant use in the     *)
+(* sequential suites; in the multi-threaded instance the cell may be held by another thread and the query *)
+(* simply has to wait ("qbusy": MC_Conc does not let the thread take this step now)                       *)
+Busy(st)          == Fault(st, IF st.conc THEN "qbusy" ELSE "reentry")
 NextNode(st)      == Len(st.nodes) + 1
 AddNode(st, nd)   == [st EXCEPT !.nodes = Append(@, nd)]
 NextSub(st)       == Len(st.subs) + 1
